@@ -81,9 +81,9 @@ Proof.
   unfold norm_b, is_barrier, src_qubit, dst_qubit. destruct (iop x) eqn:E; simpl; rewrite ?E; auto.
 Qed.
 
-Lemma untouched_filter q l : untouched q l = true <-> filter (touches q) l = [].
+Lemma untouched_filter q l : ResetFree.untouched q l = true <-> filter (touches q) l = [].
 Proof.
-  unfold untouched. induction l as [|y l IH]; simpl; [tauto|].
+  unfold ResetFree.untouched. induction l as [|y l IH]; simpl; [tauto|].
   change (touches q y) with (on_wire q y). destruct (on_wire q y); simpl; [split; discriminate|exact IH].
 Qed.
 
@@ -476,8 +476,8 @@ Section Body.
   Lemma oms_label q : q < length oms -> nth (nth q oms 0) ls None = Some l.
   Proof. intros L. apply (omembers_in ls l n). now apply nth_In. Qed.
 
-  (* an empty wire of the mapped-back list means the re-indexed qubit is untouched *)
-  Lemma wire_empty q rest : wire_view (nth q oms 0) (map un rest) = [] -> untouched q rest = true.
+  (* an empty wire of the mapped-back list means the re-indexed qubit is ResetFree.untouched *)
+  Lemma wire_empty q rest : wire_view (nth q oms 0) (map un rest) = [] -> ResetFree.untouched q rest = true.
   Proof.
     intros E. apply untouched_intro. intros y Iy Hq.
     assert (X : In (norm_b (nth q oms 0) (un y)) (wire_view (nth q oms 0) (map un rest))).
